@@ -52,6 +52,7 @@ type caseOut struct {
 	ID      int      `json:"id"`
 	Kind    string   `json:"kind"` // tcp | tcpsyn | icmp | arp
 	VPN     bool     `json:"vpn"`
+	Ring    int      `json:"ring"` // 0: every frame in a fresh buffer; n > 0: frames are copied into a ring of n reused slots
 	Classes []string `json:"classes"`
 	Frames  []string `json:"frames"` // hex
 	Obs     []obs    `json:"obs"`
@@ -157,6 +158,10 @@ type procT struct {
 	out    <-chan scan.Result
 	cancel context.CancelFunc
 	nmark  int
+	// ring of reused receive buffers, the way the zero-copy AF_PACKET ring hands out packet data:
+	// a later frame overwrites the memory an earlier frame's slices still point into
+	ring [][]byte
+	pos  int
 }
 
 // SYN scan result filter exactly as command/tcp_syn.go wires it
@@ -198,7 +203,15 @@ func (pt *procT) call(data []byte) (err error, crashed bool, msg string) {
 
 // feed processes one frame and returns the observation.
 func (pt *procT) feed(frame []byte) obs {
-	data := fr.Exact(frame) // capacity == length, private copy
+	var data []byte
+	if len(pt.ring) == 0 {
+		data = fr.Exact(frame) // capacity == length, private copy
+	} else {
+		slot := pt.ring[pt.pos%len(pt.ring)]
+		pt.pos++
+		n := copy(slot, frame)
+		data = slot[:n:n] // capacity == length, memory shared with every earlier frame of this slot
+	}
 	err, crashed, msg := pt.call(data)
 	var o obs
 	o.IP, o.MAC = []int{}, []int{}
@@ -255,10 +268,13 @@ func (pt *procT) feed(frame []byte) obs {
 	return o
 }
 
-func runCase(id int, kind string, vpn bool, frames [][]byte, classes []string) caseOut {
+func runCase(id int, kind string, vpn bool, ring int, frames [][]byte, classes []string) caseOut {
 	pt := newProc(kind, vpn)
 	defer pt.cancel()
-	c := caseOut{ID: id, Kind: kind, VPN: vpn, Classes: classes}
+	for i := 0; i < ring; i++ {
+		pt.ring = append(pt.ring, make([]byte, 4096))
+	}
+	c := caseOut{ID: id, Kind: kind, VPN: vpn, Ring: ring, Classes: classes}
 	for _, f := range frames {
 		c.Frames = append(c.Frames, hex.EncodeToString(f))
 		o := pt.feed(f)
@@ -273,6 +289,7 @@ func runCase(id int, kind string, vpn bool, frames [][]byte, classes []string) c
 type replayIn struct {
 	Kind   string   `json:"kind"`
 	VPN    bool     `json:"vpn"`
+	Ring   int      `json:"ring"`
 	Frames []string `json:"frames"`
 }
 
@@ -310,21 +327,21 @@ func main() {
 				fs = append(fs, b)
 				cl = append(cl, "replay")
 			}
-			w.Put(runCase(i, in.Kind, in.VPN, fs, cl))
+			w.Put(runCase(i, in.Kind, in.VPN, in.Ring, fs, cl))
 		}
 		return
 	}
 	r := hlib.NewRand(*seed)
 	id := 0
-	emit := func(kind string, vpn bool, frames [][]byte, classes []string) {
-		w.Put(runCase(id, kind, vpn, frames, classes))
+	emit := func(kind string, vpn bool, ring int, frames [][]byte, classes []string) {
+		w.Put(runCase(id, kind, vpn, ring, frames, classes))
 		id++
 	}
 	// fixed regression sequences first (the shapes of the known defects), every configuration
 	for _, cf := range configs {
 		g := &gen{g: fr.Gen{R: r}, kind: cf.kind, vpn: cf.vpn}
 		for _, s := range g.fixedSequences() {
-			emit(cf.kind, cf.vpn, s.frames, s.classes)
+			emit(cf.kind, cf.vpn, s.ring, s.frames, s.classes)
 		}
 	}
 	if *trunc {
@@ -332,7 +349,7 @@ func main() {
 			g := &gen{g: fr.Gen{R: r}, kind: cf.kind, vpn: cf.vpn}
 			for _, base := range g.seedFrames() {
 				for l := 0; l <= len(base); l++ {
-					emit(cf.kind, cf.vpn, [][]byte{base[:l]}, []string{"trunc-all"})
+					emit(cf.kind, cf.vpn, 0, [][]byte{base[:l]}, []string{"trunc-all"})
 				}
 			}
 		}
@@ -348,6 +365,7 @@ func main() {
 			frames = append(frames, f)
 			classes = append(classes, c)
 		}
-		emit(cf.kind, cf.vpn, frames, classes)
+		// half of the sequences go through reused buffers (ring of 1..4 slots)
+		emit(cf.kind, cf.vpn, []int{0, 0, 0, 1, 1, 2, 3, 4}[r.Intn(8)], frames, classes)
 	}
 }
